@@ -24,6 +24,19 @@ def canon(item):
         return {'int': str(item.value)}
     if isinstance(item, T.LambdaType):
         return item.value.as_micheline_expr()
+    if isinstance(item, T.OperationType):
+        # what the operation records (`content`); the parameter / payload is read back at its type and rendered like any value
+        S = lambda x: {'string': x}
+        c = item.content
+        if c['kind'] == 'transaction':
+            return {'prim': 'TRANSFER', 'args': [S(c['source']), S(c['destination']), S(c['parameters']['entrypoint']), {'int': str(int(c['amount']))},
+                                                 ty_strip(item.ty.as_micheline_expr()), canon(item.ty.from_micheline_value(c['parameters']['value']))]}
+        if c['kind'] == 'delegation':
+            d = c['delegate']
+            return {'prim': 'DELEGATE', 'args': [S(c['source']), {'prim': 'None'} if d is None else {'prim': 'Some', 'args': [S(d)]}]}
+        if c['kind'] == 'event':
+            return {'prim': 'EVENT', 'args': [S(c['source']), S(c['tag']), ty_strip(c['event_type']), canon(item.ty.from_micheline_value(c['payload']))]}
+        raise TypeError('operation ' + c['kind'])
     if isinstance(item, T.BytesType):
         return {'bytes': item.value.hex()}
     if isinstance(item, T.StringType):      # string, address, chain_id …
@@ -55,6 +68,9 @@ def run_real(code, env):
     ctx.amount, ctx.balance, ctx.now, ctx.level = env['amount'], env['balance'], env['now'], env['level']
     ctx.sender, ctx.source, ctx.address, ctx.chain_id = env['sender'], env['source'], env['self'], env['chain_id']
     ctx.total_voting_power, ctx.min_block_time = env.get('total_voting_power', 0), env.get('min_block_time', 1)
+    ctx.voting_power = dict(env.get('voting_power', {}))
+    if env.get('parameter') is not None:      # the parameter section of the running contract (SELF looks its entrypoints up)
+        ctx.parameter_expr = {'prim': 'parameter', 'args': [env['parameter']]}
     stack = MichelsonStack()
     try:
         Micheline.match(code).execute(stack, [], ctx)
@@ -67,6 +83,10 @@ def run_real(code, env):
     if stack.protected != 0:
         return 'err', f'protected={stack.protected}'
     return 'ok', [(ty_strip(x.as_micheline_expr()), canon(x)) for x in stack.items]
+
+
+class NoRepr(Exception):
+    pass
 
 
 def py_repr(ty, val):
@@ -82,7 +102,7 @@ def py_repr(ty, val):
         return str(Decimal(int(val['int'])) / 10**6)
     if p == 'string':
         return f"'{val['string']}'"
-    if p == 'chain_id':
+    if p in ('chain_id', 'key_hash', 'key'):
         return f"'{val['string']}'"
     if p == 'bytes':
         return '0x' + val['bytes']
@@ -108,7 +128,7 @@ def py_repr(ty, val):
         return '{' + ', '.join(f"{py_repr(ty[1], e['args'][0])}: {py_repr(ty[2], e['args'][1])}" for e in val) + '}'
     if p == 'lambda':
         return 'Lambda'
-    raise ValueError(ty)
+    raise NoRepr(ty)      # a class whose repr is not transcribed here: the FAILWITH text is not compared
 
 
 def truthy(ty, val):
@@ -116,7 +136,7 @@ def truthy(ty, val):
     p = ty[0]
     if p == 'bool':
         return val['prim'] == 'True'
-    if p in ('string', 'address', 'chain_id'):
+    if p in ('string', 'address', 'chain_id', 'key_hash', 'key'):
         return len(val['string']) > 0
     if p == 'bytes':
         return len(val['bytes']) > 0
@@ -148,6 +168,9 @@ def run_session(code, env, prelude):
     c.amount, c.balance, c.now, c.level = env['amount'], env['balance'], env['now'], env['level']
     c.sender, c.source, c.address, c.chain_id = env['sender'], env['source'], env['self'], env['chain_id']
     c.total_voting_power, c.min_block_time = env.get('total_voting_power', 0), env.get('min_block_time', 1)
+    c.voting_power = dict(env.get('voting_power', {}))
+    if env.get('parameter') is not None:
+        c.parameter_expr = {'prim': 'parameter', 'args': [env['parameter']]}
     for cell in prelude:
         interp.execute(cell)
     if interp.stack.items:
